@@ -51,15 +51,22 @@ def validate(trace_file):
     return viols, verdict, dist
 
 
-def run(tier, seed, regress=True):
-    cfg = TIERS[tier]
+HTTP_TIERS = {
+    "quick": dict(mc=["MC_store_quick_mixed.cfg"], sim=300, sim_depth=60, rnd=700, rnd_ops=16, probes=3, chunk=250),
+    "thorough": dict(mc=["MC_store_quick_mixed.cfg"], sim=3000, sim_depth=80, rnd=10000, rnd_ops=24, probes=4, chunk=500),
+}
+
+
+def run(tier, seed, regress=True, http=False):
+    cfg = (HTTP_TIERS if http else TIERS)[tier]
     t0 = time.time()
-    res = {"group": "store", "tier": tier, "seed": seed}
+    gname = "http" if http else "store"
+    res = {"group": gname, "tier": tier, "seed": seed}
     # (1) the design, as modelled
     mcs = [model_check("MCXsStore.tla", c) for c in cfg["mc"]]
     res["mc"] = mcs
     # (2) behaviours: TLC-generated + seeded random + committed regressions
-    d = scratch("store")
+    d = scratch(gname)
     try:
         behs = os.path.join(d, "beh.ndjson")
         n1 = gen_tlc_behaviours(cfg["sim"], cfg["sim_depth"], seed + 1, os.path.join(d, "tlc.ndjson"))
@@ -78,7 +85,7 @@ def run(tier, seed, regress=True):
         all_behs = [json.loads(l) for l in open(behs)]
         t1 = time.time()
         p = sh([XSV, "store-replay", "--in", behs, "--out", os.path.join(d, "trace"), "--jobs", "12",
-                "--probes", str(cfg["probes"]), "--chunk", str(cfg["chunk"])], timeout=3000,
+                "--probes", str(cfg["probes"]), "--chunk", str(cfg["chunk"])] + (["--http"] if http else []), timeout=3000,
                env={"XSV_SCRATCH": d})
         stats = json.loads(p.stdout.strip().splitlines()[-1])
         t2 = time.time()
@@ -109,8 +116,8 @@ def run(tier, seed, regress=True):
                     on = e["b"] == b
                 if on:
                     evs.append(e)
-            path = os.path.join(os.path.dirname(SPEC), "replays", f"store-b{b}.json")
-            json.dump({"group": "store", "behaviour": beh_by_b.get(b), "violations": vs, "trace": evs},
+            path = os.path.join(os.path.dirname(SPEC), "replays", f"{gname}-b{b}.json")
+            json.dump({"group": gname, "behaviour": beh_by_b.get(b), "violations": vs, "trace": evs},
                       open(path, "w"))
             for v in vs:
                 for p_ in v["props"]:
@@ -124,6 +131,6 @@ def run(tier, seed, regress=True):
     finally:
         shutil.rmtree(d, ignore_errors=True)
     res["wall_s"] = round(time.time() - t0, 1)
-    log(f"store group: {res['behaviours']} behaviours, {res['events']} events, "
+    log(f"{gname} group: {res['behaviours']} behaviours, {res['events']} events, "
         f"violations {sorted(res['violations'])}, known {res['known']}, {res['wall_s']}s")
     return res
